@@ -39,9 +39,18 @@ MANIFEST = dict(
          'get_references with the model on generated programs (exhaustive small scope + random). The behavioural '
          'clauses (same behaviour, partition, rename-back) are decided by the direct oracle that executes the '
          'programs; the reference-set = variable-occurrence-set statement is false of the unchanged code '
-         '(kernel-checked witnesses, known findings).',
-    note='Modelled not verified: single module, the Scopes fragment (straight-line bodies, no imports); file/package '
-         'renames and multi-module reference search are covered by the direct oracle only.',
+         '(kernel-checked witnesses, known findings). Several modules (Model/RefsMulti: tokens as _find_names answers, '
+         'modules as token lists): scan_modules_flat (module boundaries are invisible to the scan), '
+         'late_merge_across_modules (a token that did not match when its module was scanned is reported as soon as a '
+         'token of a LATER module ties it to a defining name), both stated over the translator constant that records '
+         'where find_references creates the map of non-matching references (reset_per_module_loses_references: the '
+         'kernel-checked counter-model for the other placement), flow_analysis_off_then_restored. Direct oracle on '
+         'generated multi-module projects on disk (every import form, aliases, re-exports, try/except and if/else ties, '
+         'file and package renames): exactness, behaviour, partition, rename-back.',
+    note='Modelled not verified: the Scopes fragment (straight-line bodies, no imports) for one module; for several '
+         'modules only the scan loop is modelled (what goto answers for a token across imports is an input of the model); '
+         'import resolution, file/package renames and the project-wide file search are covered by the direct oracle on '
+         'generated projects (stream multimod) only.',
     technique='Lean 4 proof over hand-written model + differential correspondence + execution oracle',
     design='5.C05')
 
@@ -350,7 +359,7 @@ def multimod_items(ctx):
     items = []
     ties = ['tie-try', 'tie-try-local', 'tie-try', 'tie-try-local', 'tie-if']
     wheres = ['main', 'sub', 'upper']
-    n_tie, n_free = ctx.size(20, 600), ctx.size(10, 300)
+    n_tie, n_free = ctx.size(20, 300), ctx.size(10, 150)
     for i in range(n_tie):
         plan = {'tie': ties[i % len(ties)], 'tie_where': wheres[(i // len(ties) + i) % 3]}
         items.append({'project': GM.gen_project(rng, plan), 'tag': 'tie', 'economy': ctx.quick})
@@ -385,7 +394,12 @@ def run(ctx):
     mm_items = multimod_items(ctx)
     items = [['prog', p] for p, _ in progs] + [['attr', s_] for s_ in attr_seeds] + [['mm', it] for it in mm_items]
     ordered, pos = balanced(items)
+    import time
+    t_pool = time.time()
     res = common.parallel_map('props.c05', 'analyse_any', ordered)
+    ctx.notes.append('worker pool (%d items: %d programs, %d attribute seeds, %d projects): %.1f s wall, load %s'
+                     % (len(items), len(progs), len(attr_seeds), len(mm_items), time.time() - t_pool,
+                        open('/proc/loadavg').read().split()[0]))
     results = [None] * len(items)
     for k, i in enumerate(pos):
         results[i] = res[k]
@@ -455,7 +469,7 @@ def run(ctx):
         for st in out['starts']:
             rel, line, col, name = st['start']
             case = {'files': proj['files'], 'main': proj['main'], 'rel': rel, 'line': line, 'column': col,
-                    'name': name, 'new_name': GM.FRESH, 'shape': st['shape']}
+                    'name': name, 'new_name': GM.FRESH, 'shape': st['shape'], 'origin': it['tag']}
             ctx.count('multimod/' + it['tag'], (sorted(proj['files'].items()), rel, line, col),
                       nontrivial=st['n_files'] > 1 or st['n_mods'] > 0,
                       bucket='files=%d%s' % (st['n_files'], '+module' if st['n_mods'] else ''),
